@@ -119,6 +119,16 @@ func applyFn(id int) dataframe.FuncType {
 				out[i] = i
 			}
 			return out
+		case 14:
+			// nil for a row (column) that starts with nil, the reversed cells otherwise
+			if len(x) > 0 && x[0] == nil {
+				return nil
+			}
+			out := make([]any, len(x))
+			for i, v := range x {
+				out[len(x)-1-i] = v
+			}
+			return out
 		case 13:
 			out := make([]string, len(x)+1) // a longer []string
 			for i := range out {
@@ -298,6 +308,10 @@ func (r *Runner) Exec(o Op) (out Out) {
 		return derive(df.MultiSelect(strsOf(o.Strs)...))
 	case "sort":
 		if o.Asc != nil {
+			if len(o.Keep) > 0 {
+				// further variadic flags after the first one are ignored by SortValues
+				return derive(df.SortValues(strsOf(o.Strs), append([]bool{*o.Asc}, o.Keep...)...))
+			}
 			return derive(df.SortValues(strsOf(o.Strs), *o.Asc))
 		}
 		return derive(df.SortValues(strsOf(o.Strs)))
@@ -443,6 +457,14 @@ func (r *Runner) Exec(o Op) (out Out) {
 			if err := os.WriteFile(path, []byte(o.Bytes), 0o600); err != nil {
 				panic(err)
 			}
+			if o.Alt && o.F >= 0 && o.F < len(r.pool) {
+				// the method form: any frame can be the receiver; it must stay as it was (the result is returned)
+				res, err := r.pool[o.F].FromCSV(path)
+				if err == nil && res == r.pool[o.F] {
+					return Out{Status: "panic", Msg: "FromCSV returned its receiver instead of a new frame"}
+				}
+				return derive(res, err)
+			}
 			return derive(dataframe.NewDataFrame().FromCSV(path))
 		}
 		if viaRoot(o) {
@@ -528,6 +550,18 @@ func (r *Runner) Exec(o Op) (out Out) {
 			fv, present := m[name]
 			if serr != nil || !present || math.Float64bits(sv) != math.Float64bits(fv) && !(sv != sv && fv != fv) {
 				return Out{Status: "panic", Msg: fmt.Sprintf("Series.%s and DataFrame.%s disagree on column %q: %v (%v) vs %v", o.Agg, o.Agg, name, sv, serr, fv)}
+			}
+			// a Series used directly and edited through its exported Data between two calls
+			if len(col.Data) > 0 {
+				own := append([]any{}, col.Data...)
+				held := dataframe.NewSeries(name, own)
+				before, _ := held.Sum()
+				held.Data[0] = before + 1.5
+				after, aerr := held.Sum()
+				fresh, ferr := dataframe.NewSeries(name, append([]any{}, own...)).Sum()
+				if (aerr == nil) != (ferr == nil) || (aerr == nil && math.Float64bits(after) != math.Float64bits(fresh) && !(after != after && fresh != fresh)) {
+					return Out{Status: "panic", Msg: fmt.Sprintf("Series.Sum after an edit of Series.Data: %v, a fresh Series over the same cells: %v", after, fresh)}
+				}
 			}
 			if fl, ferr := s.AsFloat64(); ferr != nil || len(fl) != len(col.Data) {
 				return Out{Status: "panic", Msg: fmt.Sprintf("AsFloat64 failed or changed the length on a column the aggregate accepted: %v", ferr)}
